@@ -272,10 +272,16 @@ def build_impl():
         if errs:
             return None, "implementation/harness does not link:\n" + "\n".join(errs)[:3000]
         (d / "OK").write_text(key)
-        # keep the cache small
-        olds = sorted([x for x in root.iterdir() if x.is_dir() and x != d], key=lambda x: (x / "OK").stat().st_mtime if (x / "OK").exists() else 0)
-        for x in olds[:-3]:
-            shutil.rmtree(x, ignore_errors=True)
+        # keep the cache small - but never remove a build another check may still be running on (checks of different trees may
+        # run side by side; every use touches OK): only builds unused for two hours go, beyond the three most recent ones
+        def used(x):
+            try: return (x / "OK").stat().st_mtime
+            except OSError: return 0
+        olds = sorted([x for x in root.iterdir() if x.is_dir() and x != d], key=used)
+        now = time.time()
+        for i, x in enumerate(olds[:-3]):
+            if now - used(x) > 7200 or len(olds) - i > 300:
+                shutil.rmtree(x, ignore_errors=True)
         return d, ""
 
 SAN_ENV = dict(os.environ, ASAN_OPTIONS="detect_leaks=1:abort_on_error=0:exitcode=99", UBSAN_OPTIONS="print_stacktrace=1:halt_on_error=1:exitcode=98",
